@@ -19,7 +19,7 @@ RULE = ('Hypothesis: signal recipes (sines, asymmetric, sawtooth, gaussian train
         'extreme value (first-occurrence rule exercised), or boundary>0 dropped an in-signal extremum, or first_extrema trimming dropped one. '
         'Discarded: fewer than 2 peaks or 2 troughs after boundary trimming (outside the three-oscillation domain).')
 REGISTER = True
-TECHNIQUE = 'Hypothesis property-based testing of find_extrema: differential against an independent half-wave reference model plus direct extremum predicates'
+TECHNIQUE = 'Hypothesis property-based testing of find_extrema: differential against an independent half-wave reference model plus direct extremum predicates, over raw dtypes, numpy-scalar arguments, a repeated call with the same option objects and a second filter length in the same process'
 LEVEL_TEXT = 'Generated-input search (2.4k cases quick, 60k thorough) over signal families, sampling rates, bands, filter lengths, boundaries, first_extrema and pad; exact index equality with the reference and window predicates on every returned index. Sampling, not exhaustive.'
 ASSUMPTIONS = ['neurodsp filter_signal / compute_filter_length are trusted (not bycycle code)',
                'window convention: a crossing is the last sample before the sign change (<=0 -> >0) of the filtered signal; '
